@@ -252,7 +252,7 @@ static void ldpc_point (const pt_t *p)
 	char sig[200];
 	bool enc_null = false, dec_null = false;
 	int even_cols = 1;
-	snprintf (g_case, sizeof g_case, "ldpc k=%d r=%d N1=%d seed=%d len=%d prefix=%d", k, r, p->N1, p->seed, len, p->prefix);
+	snprintf (g_case, sizeof g_case, "ldpc k=%d r=%d N1=%d seed=%d len=%d prefix=%d align=%d", k, r, p->N1, p->seed, len, p->prefix, p->slotmode & 7);
 	memcpy (vf_slot (), g_case, sizeof g_case);
 	run_prefix (p->prefix);
 	vf_stat_add (st_prefixes, 1);
@@ -279,9 +279,11 @@ static void ldpc_point (const pt_t *p)
 	/* behavioural: encode the identity(+dense) payload, two slot modes (structural comparison only for the very large points) */
 	if (k <= 2000) {
 		pt_t q = *p;
+		int al = p->slotmode & 7;	/* alignment of the application buffers under test (exact-size blocks, canary after the repair buffers) */
 		unsigned char **src = malloc (sizeof (void *) * (size_t) k), **pri = malloc (sizeof (void *) * (size_t) k), **first = calloc ((size_t) n, sizeof (void *));
+		void **srcblk = calloc ((size_t) k, sizeof (void *));
 		q.codec = 3;
-		for (i = 0; i < k; i++) { src[i] = malloc ((size_t) len); pri[i] = malloc ((size_t) len); fill_source (&q, i, src[i]); memcpy (pri[i], src[i], (size_t) len); }
+		for (i = 0; i < k; i++) { srcblk[i] = malloc ((size_t) al + (size_t) len); src[i] = (unsigned char *) srcblk[i] + al; pri[i] = malloc ((size_t) len); fill_source (&q, i, src[i]); memcpy (pri[i], src[i], (size_t) len); }
 		for (mode = 0; mode < 2; mode++) {
 			void **tab = malloc (sizeof (void *) * (size_t) n);
 			unsigned char **mine = calloc ((size_t) n, sizeof (void *));
@@ -292,7 +294,7 @@ static void ldpc_point (const pt_t *p)
 #endif
 			if (!s) { free (tab); free (mine); continue; }
 			for (i = 0; i < k; i++) tab[i] = src[i];
-			for (i = k; i < n; i++) { if (mode == 0) { mine[i] = malloc ((size_t) len); memset (mine[i], 0x5A, (size_t) len); tab[i] = mine[i]; } else tab[i] = NULL; }
+			for (i = k; i < n; i++) { if (mode == 0) { mine[i] = malloc ((size_t) al + (size_t) len + 8); memset (mine[i], 0x5A, (size_t) al + (size_t) len + 8); tab[i] = mine[i] + al; } else tab[i] = NULL; }
 			for (j = k; j < n && !failed; j++) {
 				of_status_t st;
 				snprintf (vf_slot (), VF_SLOT_LEN, "%s build esi=%d slot=%s", g_case, j, mode ? "null" : "buffer");
@@ -300,7 +302,8 @@ static void ldpc_point (const pt_t *p)
 				vf_stat_add (st_trans, 1);
 				if (st != OF_STATUS_OK) { snprintf (sig, sizeof sig, "codec=ldpc|call=build|kind=status-%d|slot=%s", (int) st, mode ? "null" : "buffer"); viol (PROP, sig); failed = 1; break; }
 				if (!tab[j]) { viol ("C06", "codec=ldpc|call=build|kind=null-slot-left-null"); failed = 1; break; }
-				if (mode == 0 && tab[j] != mine[j]) viol ("C06", "codec=ldpc|call=build|kind=application-slot-replaced");
+				if (mode == 0 && tab[j] != mine[j] + al) viol ("C06", "codec=ldpc|call=build|kind=application-slot-replaced");
+				if (mode == 0) { int qq, badc = 0; for (qq = 0; qq < al; qq++) if (mine[j][qq] != 0x5A) badc = 1; for (qq = 0; qq < 8; qq++) if (mine[j][al + len + qq] != 0x5A) badc = 1; if (badc) { viol ("C07", "codec=ldpc|call=build|kind=wrote-outside-repair-buffer"); viol ("C06", "codec=ldpc|call=build|kind=wrote-outside-repair-buffer"); } }
 #ifdef VF_TRK
 				if (mode == 1 && (!vf_trk_is_live (tab[j]) || vf_trk_size (tab[j]) < (size_t) len || vf_trk_serial (tab[j]) < mark)) { viol ("C06", "codec=ldpc|call=build|kind=null-slot-not-a-fresh-library-block"); failed = 1; break; }
 #endif
@@ -328,7 +331,8 @@ static void ldpc_point (const pt_t *p)
 			free (tab); free (mine);
 		}
 		for (j = 0; j < n; j++) free (first[j]);
-		for (i = 0; i < k; i++) { free (src[i]); free (pri[i]); }
+		for (i = 0; i < k; i++) { free (srcblk[i]); free (pri[i]); }
+		free (srcblk);
 		free (src); free (pri); free (first);
 	}
 	if (k > 2000) of_release_codec_instance (se);
@@ -500,7 +504,7 @@ static void item_replay (long it, void *arg)
 	vf_slot_set_prop (PROP);
 	memset (&p, 0, sizeof p);
 	if (sscanf (cs, "rs codec=%d m=%d k=%d n=%d len=%d align=%d", &p.codec, &p.m, &p.k, &p.n, &p.len, &p.prefix) >= 5) { p.r = p.n - p.k; rs_point (&p); }
-	else if (sscanf (cs, "ldpc k=%d r=%d N1=%d seed=%d len=%d prefix=%d", &p.k, &p.r, &p.N1, &p.seed, &p.len, &p.prefix) == 6) { p.codec = 3; p.n = p.k + p.r; ldpc_point (&p); }
+	else if (sscanf (cs, "ldpc k=%d r=%d N1=%d seed=%d len=%d prefix=%d align=%d", &p.k, &p.r, &p.N1, &p.seed, &p.len, &p.prefix, &p.slotmode) >= 6) { p.codec = 3; p.n = p.k + p.r; ldpc_point (&p); }
 	else if (sscanf (cs, "both codec=%d m=%d k=%d r=%d N1=%d seed=%d len=%d lost=%d", &p.codec, &p.m, &p.k, &p.r, &p.N1, &p.seed, &p.len, &p.prefix) == 8) { p.n = p.k + p.r; p.slotmode = 9; both_point (&p); }
 	else if (sscanf (cs, "2d k=%d r=%d", &p.k, &p.r) == 2) { p.codec = 5; p.n = p.k + p.r; p2d_point (&p); }
 	else vf_viol ("MACHINERY", "kind=bad-replay-case", "%s", cs);
@@ -563,6 +567,10 @@ int main (int argc, char **argv)
 							add_pt (3, 0, k, r, N1, thorough ? seeds_t[si] : seeds_q[si], k + 2, pf);
 						}
 				}
+			}
+			{	/* symbol lengths x buffer alignments on two small codes (encoder side of C07 / C06) */
+				int L, al2;
+				for (L = 1; L <= 40; L++) for (al2 = 1; al2 < 8; al2++) { add_pt (3, 0, 4, 4, 3, 1, L, 0); PT[NPT - 1].slotmode = al2; add_pt (3, 0, 9, 5, 4, 2, L, 0); PT[NPT - 1].slotmode = al2; }
 			}
 			/* very large blocks draw with large maxv (up to N1*k = 140000): many seeds, structural comparison only.
 			 * Reached by no test; a PRNG scaling that differs from the RFC expression in the last unit shows here. */
